@@ -77,6 +77,27 @@ CLAIMS.update({
     ),
 })
 
+CLAIMS.update({
+    "C08": dict(
+        technique="branch-consistent path exploration (must-pass-through of the normalising call under normalize_factors=True; core/factor version relation for HOOI) + abstract interpretation of every decomposition's return values (wrapper-object shapes per return statement)",
+        text="Decides three structural clauses: with normalisation requested every path from a sweep write to a return -- convergence break, callback stop and iteration cap alike -- passes the normalising call in the 7 drivers that offer the option; every decomposition entry point (CP family, Tucker family, PARAFAC2, TT, TT-matrix, TR-SVD, TR-ALS, CMTF) returns, at every return statement, a value built by its family's validating wrapper constructor, so the validator's format conditions (equal column counts, TT boundary ranks 1, TR closing rank, one projection per PARAFAC2 slice, core/factor agreement) hold on whatever is returned; HOOI's returned core is the projection computed after the last factor write. It does NOT decide shapes vs. requested ranks, orthonormality, TT left-orthogonality or 'weights all ones'.",
+        note="Trusted: C03 CTOR-VALIDATES (constructors validate); paths without a sweep write (n_iter_max=0) are outside NORMALISE-ON-EXIT; frozen driver table.",
+        design="DESIGN.md §3 C08",
+    ),
+    "C14": dict(
+        technique="loop-index provenance lint (sweep stores indexed only by the fixed-mode-filtered list) + path exploration under the rewriting options switched off + pure-move (no arithmetic / no copy-with-change) check of the fixed-factor flow",
+        text="Decides ONLY the fixed-modes clause: in parafac, non_negative_parafac, non_negative_parafac_hals, constrained_parafac and non_negative_tucker_hals every sweep store into the factor list is indexed by the variable of a loop over [m for m in range(ndim) if m not in fixed_modes] and, with normalize_factors/orthogonalise/linesearch off, nothing else re-binds the list; parafac's all-fixed shortcut wraps exactly the initialiser's outputs; tucker's fixed factors reach the result from init by moves only. The clause 'iteration starts from exactly the tensor the initialisation represents' (weight folding) is numeric and explicitly NOT decided.",
+        note="Trusted: frozen driver table; with normalisation / orthogonalisation / line search ON all factors are legitimately rewritten and the rule is silent.",
+        design="DESIGN.md §3 C14",
+    ),
+    "C19": dict(
+        technique="branch-consistent path exploration with the version relation of C06 over CPRegressor.fit / TuckerRegressor.fit (every exposure computed from the current factor versions) + delegation-shape lint of the exposures and of predict",
+        text="Decides for the CP and Tucker regressors: every attribute exposed by fit (weight_tensor_, cp_weight_/tucker_weight_, vec_W_) is derived, on every path (convergence break and iteration cap), from the same final factor state through the family's reconstruction of exactly the exposed pair, and predict reads only exposed attributes and contracts partial_tensor_to_vec(X) with one of them. The CP-PLSR clauses (scores, unit loadings, invariances) are numeric and NOT decided.",
+        note="Trusted: C03 view agreement; paths where weight_tensor_ is never bound (n_iter_max=0) are outside the rule.",
+        design="DESIGN.md §3 C19",
+    ),
+})
+
 NA = {
     "C04": "Equality of floating-point tensors across norms, signs, QR and SVD: no structural necessary condition exists that is not a frozen copy of the formula; the one shape-level clause (transforms must not write into their argument) is decided under C15.",
     "C05": "Singular values, orthonormality and optimal truncation error are numerical facts about LAPACK results; no sound static argument bounds them.",
